@@ -113,6 +113,51 @@ Section C06.
   Theorem dispatch_never_blocks :
     forall lazy st b rest i, pc st = MDisp b rest i -> exists st', FIRE lazy st BMain = Some st'.
   Proof. intro lazy. exact (dispatch_never_blocks_lemma SC DET JD REC prep write V batches lazy). Qed.
+
+  (* Termination. [bmeasure] is a natural number computed from the state (remaining main-thread steps, remaining
+     steps of every queued job, messages in the result channels, voting threads still to exit); every step of every
+     thread strictly decreases it, so a run has at most [bmeasure INIT] steps, whatever the schedule. *)
+  Theorem measure_decreases :
+    forall lazy sigma st l st',
+      RUN lazy INIT sigma = Some st -> FIRE lazy st l = Some st' ->
+      bmeasure SC DET JD REC V batches st' < bmeasure SC DET JD REC V batches st.
+  Proof.
+    intro lazy. exact (measure_decreases_lemma SC DET JD REC sc0 prep write V batches lazy voting_threads_exist).
+  Qed.
+
+  Theorem batch_terminates :
+    forall lazy sigma st,
+      RUN lazy INIT sigma = Some st ->
+      length sigma + bmeasure SC DET JD REC V batches st <= bmeasure SC DET JD REC V batches INIT.
+  Proof.
+    intro lazy. exact (batch_terminates_lemma SC DET JD REC sc0 prep write V batches lazy voting_threads_exist).
+  Qed.
+
+  (* Under the proviso a run that cannot be extended is complete: tracker shut down and joined, every result of
+     every batch retrieved (with one_result_per_scene: exactly one per scene) ... *)
+  Theorem every_maximal_run_is_complete :
+    forall sigma st,
+      RUN false INIT sigma = Some st -> (forall l, FIRE false st l = None) ->
+      FINAL st = true /\
+      forall b, b < nb -> Permutation (map fst (consumed st b)) (map fst (nth b batches [])) /\ chans st b = [].
+  Proof.
+    intros sigma st H Hmax.
+    pose proof (maximal_run_is_final_lemma SC DET JD REC sc0 prep write V batches false voting_threads_exist
+                  sigma st eq_refl H Hmax) as F.
+    split; [exact F|]. intros b Hb.
+    destruct (one_result_per_scene false sigma st b H F Hb) as (P & C & _). auto.
+  Qed.
+
+  (* ... and every run can be extended to such a complete run, of at most [bmeasure INIT] steps in total. *)
+  Theorem every_run_can_be_completed :
+    forall sigma st,
+      RUN false INIT sigma = Some st ->
+      exists sigma' st', RUN false INIT (sigma ++ sigma') = Some st' /\ FINAL st' = true /\
+                         length (sigma ++ sigma') <= bmeasure SC DET JD REC V batches INIT.
+  Proof.
+    intros sigma st.
+    exact (every_run_completes_lemma SC DET JD REC sc0 prep write V batches false voting_threads_exist sigma st eq_refl).
+  Qed.
 End C06.
 
 (* The proviso is needed: if the caller retrieves results only after it has submitted everything, a batch of
